@@ -51,6 +51,119 @@ def alias_sources(value):
     return []
 
 
+# attributes the base-class fit() assigns before it delegates to _fit_one_ep / _fit_regressor
+SET_BY_BASE_FIT = {'n_features_in_', 'n_states_in_', 'n_inputs_in_', 'episode_feature_', 'feature_names_in_',
+                   'n_features_out_', 'n_states_out_', 'n_inputs_out_', 'min_samples_'}
+
+
+CLASS_NAMES = {}      # class -> (bases, every name bound in the class body: methods, class constants)
+
+
+def class_level_names(cname, seen=None):
+    seen = seen or set()
+    if cname in seen or cname not in CLASS_NAMES:
+        return set()
+    seen.add(cname)
+    bases, names = CLASS_NAMES[cname]
+    out = set(names)
+    for b in bases:
+        out |= class_level_names(b, seen)
+    return out
+
+
+def reads_before_write(fn, class_names=()):
+    """fitted (trailing underscore) or private (leading underscore) attributes of self that a fit-like
+    method READS at a line before any line where it assigns them: state left by an earlier fit.
+    hasattr / getattr probes of self are reported as well."""
+    facts = []
+    first_store = {}
+    for node in ast.walk(fn):
+        tg = []
+        if isinstance(node, ast.Assign):
+            tg = node.targets
+        elif isinstance(node, (ast.AugAssign, ast.AnnAssign)):
+            tg = [node.target]
+        for t in tg:
+            for e in ([t] if not isinstance(t, ast.Tuple) else t.elts):
+                if is_self_attr(e):
+                    first_store[e.attr] = min(first_store.get(e.attr, 10**9), node.lineno)
+    for node in ast.walk(fn):
+        if is_self_attr(node) and isinstance(node.ctx, ast.Load):
+            a = node.attr
+            stateful = (a.endswith('_') and not a.endswith('__')) or (a.startswith('_') and not a.startswith('__'))
+            if not stateful or a in SET_BY_BASE_FIT or a in class_names:
+                continue        # methods and class-level constants are not per-instance state
+            if first_store.get(a, 10**9) > node.lineno:
+                facts.append(('reads_state_of_previous_fit', a, node.lineno))
+        if isinstance(node, ast.Call) and isinstance(node.func, ast.Name) and node.func.id in ('hasattr', 'getattr') \
+                and node.args and isinstance(node.args[0], ast.Name) and node.args[0].id == 'self':
+            facts.append(('probes_own_state', ast.unparse(node.args[1]) if len(node.args) > 1 else '?', node.lineno))
+    return facts
+
+
+def class_level_mutables(tree):
+    """class name -> (base names, names of class-level attributes bound to a mutable literal / constructor)"""
+    out = {}
+    for st in tree.body:
+        if isinstance(st, ast.ClassDef):
+            names = set()
+            for b in st.body:
+                tgt = val = None
+                if isinstance(b, ast.Assign) and len(b.targets) == 1 and isinstance(b.targets[0], ast.Name):
+                    tgt, val = b.targets[0].id, b.value
+                elif isinstance(b, ast.AnnAssign) and isinstance(b.target, ast.Name) and b.value is not None:
+                    tgt, val = b.target.id, b.value
+                if tgt and (isinstance(val, (ast.Dict, ast.List, ast.Set, ast.DictComp, ast.ListComp, ast.SetComp))
+                            or (isinstance(val, ast.Call) and ast.unparse(val.func) in ('dict', 'list', 'set', 'collections.defaultdict'))):
+                    names.add(tgt)
+            bases = [ast.unparse(b).split('.')[-1] for b in st.bases]
+            out[st.name] = (bases, names)
+    return out
+
+
+def inherited_mutables(cname, table, seen=None):
+    seen = seen or set()
+    if cname in seen or cname not in table:
+        return set()
+    seen.add(cname)
+    bases, names = table[cname]
+    out = set(names)
+    for b in bases:
+        out |= inherited_mutables(b, table, seen)
+    return out
+
+
+def class_state_mutations(fn, mutable_names):
+    """in-place mutation, through self, of an attribute that is a CLASS-LEVEL mutable object (shared by all
+    instances) and is not rebound on self earlier in the method"""
+    facts = []
+    rebound = {}
+    for node in ast.walk(fn):
+        if isinstance(node, ast.Assign):
+            for t in node.targets:
+                if is_self_attr(t):
+                    rebound[t.attr] = min(rebound.get(t.attr, 10**9), node.lineno)
+    def hit(b, ln):
+        if is_self_attr(b) and b.attr in mutable_names and rebound.get(b.attr, 10**9) > ln:
+            facts.append(('mutates_class_level_state', b.attr, ln))
+    for node in ast.walk(fn):
+        tg = []
+        if isinstance(node, ast.Assign):
+            tg = node.targets
+        elif isinstance(node, (ast.AugAssign, ast.AnnAssign)):
+            tg = [node.target]
+        for t in tg:
+            if isinstance(t, (ast.Subscript, ast.Attribute)) and not is_self_attr(t):
+                hit(base_name(t), node.lineno)
+        if isinstance(node, ast.Delete):
+            for t in node.targets:
+                if isinstance(t, ast.Subscript):
+                    hit(base_name(t), node.lineno)
+        if isinstance(node, ast.Call) and isinstance(node.func, ast.Attribute) and node.func.attr in MUTATORS:
+            hit(base_name(node.func.value), node.lineno)
+    return facts
+
+
 def analyse_method(fn, memoised, module_flags):
     facts = []
     aliases = {}          # local name -> public self attr it may alias
@@ -100,6 +213,9 @@ def analyse_method(fn, memoised, module_flags):
     return facts
 
 
+CLASS_TABLE = {}
+
+
 def analyse_file(path):
     tree = ast.parse(open(os.path.join(REPO, path)).read())
     memoised = set()
@@ -113,6 +229,13 @@ def analyse_file(path):
                 and isinstance(st.value, ast.Constant) and isinstance(st.value.value, bool):
             module_flags.add(st.targets[0].id)
     out = []
+    # a memoised helper whose cache key leaves out one of its arguments returns stale results for other values of it
+    for st in tree.body:
+        if isinstance(st, ast.FunctionDef) and st.name in memoised:
+            for d in st.decorator_list:
+                if isinstance(d, ast.Call) and (d.args or d.keywords):
+                    out.append((path, '<module>', st.name, 'memoised_function_with_partial_cache_key',
+                                ast.unparse(d).replace('"', "'"), st.lineno))
     # memoised helpers that mutate their estimator argument
     for st in tree.body:
         if isinstance(st, ast.FunctionDef) and st.name in memoised:
@@ -122,7 +245,14 @@ def analyse_file(path):
                     out.append((path, '<module>', st.name, 'memoised_function_fits_its_argument', node.func.value.id, node.lineno))
     for st in tree.body:
         if isinstance(st, ast.ClassDef):
+            shared = inherited_mutables(st.name, CLASS_TABLE)
             for fn in st.body:
+                if isinstance(fn, ast.FunctionDef):
+                    for kind, what, ln in class_state_mutations(fn, shared):
+                        out.append((path, st.name, fn.name, kind, what, ln))
+                if isinstance(fn, ast.FunctionDef) and fn.name in FITLIKE:
+                    for kind, what, ln in reads_before_write(fn, class_level_names(st.name)):
+                        out.append((path, st.name, fn.name, kind, what, ln))
                 if isinstance(fn, ast.FunctionDef) and (fn.name in FITLIKE or fn.name in READONLY
                                                         or fn.name.startswith('_create_problem') or fn.name == '_create_base_problem'):
                     for kind, what, ln in analyse_method(fn, memoised, module_flags):
@@ -145,6 +275,22 @@ def analyse_file(path):
 def main():
     os.makedirs(OUT, exist_ok=True)
     facts = []
+    for root, _, files in os.walk(os.path.join(REPO, 'pykoop')):
+        for fn in sorted(files):
+            if fn.endswith('.py'):
+                t = ast.parse(open(os.path.join(root, fn)).read())
+                CLASS_TABLE.update(class_level_mutables(t))
+                for c in t.body:
+                    if isinstance(c, ast.ClassDef):
+                        nm = set()
+                        for b in c.body:
+                            if isinstance(b, (ast.FunctionDef, ast.AsyncFunctionDef)):
+                                nm.add(b.name)
+                            elif isinstance(b, ast.Assign):
+                                nm |= {x.id for x in b.targets if isinstance(x, ast.Name)}
+                            elif isinstance(b, ast.AnnAssign) and isinstance(b.target, ast.Name):
+                                nm.add(b.target.id)
+                        CLASS_NAMES[c.name] = ([ast.unparse(x).split('.')[-1] for x in c.bases], nm)
     for root, _, files in os.walk(os.path.join(REPO, 'pykoop')):
         for fn in sorted(files):
             if fn.endswith('.py'):
